@@ -325,6 +325,17 @@ def bin_stores(prog, f, seed=None):
                         idx = S.subst(ev.eval_at(st, t.slice), {v: S.sym("BIN")})
                         val = S.subst(ev.eval_at(st, st.value), {v: S.sym("BIN")})
                         g = S.subst(ev.guard_of(st), {v: S.sym("BIN")})
+                        # "the range is not empty" holds for every bin the loop visits: such a path fact (an early return for an
+                        # empty range placed before the loop) says nothing about which bins get which value
+                        try:
+                            it_ = ev.eval_at(loop, loop.iter)
+                            implied = {S.E("bool", it_), S.cmp(">", S.call("len", it_), S.ZERO), S.cmp("!=", S.call("len", it_), S.ZERO), S.cmp("<", S.ZERO, S.call("len", it_))}
+                            conj_ = list(g.args) if g.op == "and" else [g]
+                            kept_ = [c_ for c_ in conj_ if c_ not in implied]
+                            if len(kept_) != len(conj_):
+                                g = S.eand(*kept_) if kept_ else S.TRUE
+                        except Exception:
+                            pass
                         out.append({"loop": loop, "stmt": st, "guard": g, "index": idx, "value": val, "array": t.value.id,
                                     "range": S.subst(ev.eval_at(loop, loop.iter), {v: S.sym("BIN")}), "ev": ev})
     return out
